@@ -288,7 +288,13 @@ def run_check(prop, tier, obligations, *, level_text="", assumptions=(), wall_bu
                 todo.clear()
                 break
             submit_some()
-        if timed_out:
+        if timed_out or pending:
+            # never wait for a stuck worker: a wall-budget overrun is reported as inconclusive
+            for proc in list(getattr(ex, "_processes", {}).values()):
+                try:
+                    proc.kill()
+                except Exception:
+                    pass
             ex.shutdown(wait=False, cancel_futures=True)
     exhaustive = not timed_out and not errors and not todo
 
